@@ -14,18 +14,42 @@ RULE = (
     "Case = initial limit (KiB/s, 0 = unlimited, biased to 1, 2, 4, powers of two, 10000), direction, 1..4 consumers "
     "(real PeerConnection objects registered with a real Network, each running the take_tokens loop of "
     "send_file/receive_file) with run-length encoded gap sequences from {0, 10us, 1ms, 9.9ms, 10ms, 1s, 1000s}, and "
-    "limit changes via Network.set_*_speed_limit at generated virtual times, all on the virtual clock (so equal "
-    "consecutive timestamps occur). Oracle: for every pair of grant instants a<=b inside a period of finite limits, "
+    "limit changes at generated virtual times, all on the virtual clock (so equal consecutive timestamps occur). "
+    "Each limit change has a generated carrier, one of the documented ways of changing a limit at run time: "
+    "Network.set_*_speed_limit(L); settings.network.limits.<field> = L followed by Network.load_speed_limits(); a "
+    "new NetworkLimitSettings object assigned to settings.network.limits + load_speed_limits(); a new network "
+    "section (model_copy(update={'limits': ...})) assigned to settings.network + load_speed_limits(). The limit of "
+    "the other direction (settings only) is generated too. Up to two consumers are cancelled by the case (a transfer "
+    "that is aborted / removed / whose connection is closed): either the first request, from the consumer's k-th "
+    "request on, that is still pending after m ms (m from {0, 1, 5, 9.9, 10, 10.1, 15, 50, 500, ...}) or at an "
+    "absolute time whatever the consumer is doing; the cancelled request is abandoned, the consumer optionally goes "
+    "on with the rest of its plan after 0 / 10 / 500 ms (a new transfer over the same limiter). "
+    "Oracle (the limit in force is what the case set last, whatever the carrier): for every pair of grant instants "
+    "a<=b inside a period of finite limits, "
     "tokens granted in [a,b] <= integral of L*1024 over [a,b] + max L*1024 in the window; limit 0 grants without "
-    "suspending; while a consumer waits (constant positive limit L) the limiter keeps granting: tokens granted to all consumers during the wait >= 0.4*L*1024*wait - 128*(consumers+1), and no single request waits longer than 120 s (the whole case requests at most 260 grants). Non-trivial = "
+    "suspending; while a consumer waits (constant positive limit L) the limiter keeps granting: tokens granted to all consumers during the wait >= 0.4*L*1024*wait - 128*(consumers+1), and no single request (of a consumer that the case does not cancel at that request) waits longer than 120 s (the whole case requests at most 260 grants). Non-trivial = "
     "an idle period (>= 1 s) followed by a burst of >= 8 zero-gap takes, or a limit change while a consumer waits "
-    "or holds tokens; distinct = distinct case document."
+    "or holds tokens, or a consumer cancelled while it waits for tokens; distinct = distinct case document. "
+    "Second tier (checks/c20_file.py): 1..3 real file connections of a listening Network move files with "
+    "send_file/receive_file over the simulated network, limit changes with the same carriers, and transfer tasks "
+    "that are cancelled (connection then closed, as TransferManager does) a generated time after their start while "
+    "the others share the limiter; the same window bound on the bytes reported by the progress callback, every "
+    "transfer that is not aborted by the case finishes within 200 s (<= 60 kB at >= 1 KiB/s), and within 1 s once "
+    "the limit is 0."
 )
 ASSUMPTIONS = [
     "tokens granted by take_tokens bound the bytes moved (send_file sends exactly the granted chunk, receive_file "
     "reads at most the granted amount)",
     "time.monotonic in aioslsk.network.rate_limiter is the virtual loop clock",
     "at most 260 grants per case so that all windows are examined exhaustively",
+    "ways of changing a limit at run time are taken from docs/source/USAGE.rst ('Setting Transfer Limits': "
+    "network.set_upload_speed_limit(), or change the settings and call network.load_speed_limits(), whose docstring "
+    "is '(Re)loads the speed limits from the settings'); assigning a whole section counts as changing the settings "
+    "because every settings class, including Settings whose fields are all sections, is declared "
+    "validate_assignment=True; a changed setting without one of the two calls is never expected to take effect",
+    "a consumer / transfer is cancelled with Task.cancel() on the task that awaits take_tokens() / send_file() / "
+    "receive_file() (what TransferManager.abort/remove do); a cancelled request is granted nothing, so it takes no "
+    "part in the window or work-conservation arithmetic",
 ]
 BUDGET_S = {'quick': 120, 'thorough': 1500}
 
@@ -36,6 +60,14 @@ _limit = st.sampled_from([1, 1, 2, 2, 3, 4, 8, 16, 64, 1024, 10000]) | st.intege
 _limit0 = st.sampled_from([0]) | _limit
 
 
+# how a run-time limit change is carried into the network (docs/source/USAGE.rst "Setting Transfer Limits": either
+# network.set_*_speed_limit(), or change the settings and call network.load_speed_limits(); every settings class is
+# declared validate_assignment=True, `Settings` itself has only sections as fields: assigning a section is a supported
+# way of changing the settings)
+CARRIERS = ['set', 'inplace+load', 'replace-limits+load', 'replace-network+load']
+CANCEL_MS = [0, 1, 5, 9.9, 10, 10.1, 15, 50, 500, 1000, 1500, 3000]
+
+
 @st.composite
 def case_strategy(draw):
     consumers = draw(st.lists(
@@ -43,15 +75,27 @@ def case_strategy(draw):
                  min_size=1, max_size=6),
         min_size=1, max_size=4))
     changes = draw(st.lists(
-        st.tuples(st.sampled_from([0.0, 0.001, 0.005, 0.02, 0.5, 1.0, 1.5, 3.0, 1001.0, 2000.5]), _limit0),
+        st.tuples(st.sampled_from([0.0, 0.001, 0.005, 0.02, 0.5, 1.0, 1.5, 3.0, 1001.0, 2000.5]), _limit0,
+                  st.integers(0, len(CARRIERS) - 1)),
         max_size=3))
-    return {
+    # [consumer, take number (0: cancel at an absolute time), ms, resume after ms (-1: never)]
+    cancels = draw(st.lists(
+        st.tuples(st.integers(0, 3), st.sampled_from([0, 1, 1, 2, 3, 9, 10, 17, 18, 33]),
+                  st.sampled_from(CANCEL_MS), st.sampled_from([-1, -1, 0, 10, 500])),
+        max_size=2))
+    case = {
         'limit': draw(_limit0),
         'upload': draw(st.booleans()),
         'consumers': [[list(x) for x in c] for c in consumers],
         'changes': [list(x) for x in changes],
         'start_delay': draw(st.sampled_from([0.0, 0.0, 0.5, 2.0])),
     }
+    if cancels:
+        case['cancels'] = [list(x) for x in cancels]
+    other = draw(st.sampled_from([0, 0, 0, 1, 7, 10000]))
+    if other:
+        case['other'] = other
+    return case
 
 
 def _clamp_limit(v):
@@ -74,31 +118,68 @@ def run_case(case) -> CaseResult:
     from aioslsk.settings import CredentialsSettings, Settings
 
     limit0 = _clamp_limit(case.get('limit', 1))
+    other0 = _clamp_limit(case.get('other', 0) or 0)     # limit of the direction that is not exercised
     upload = bool(case.get('upload', True))
     consumers = case.get('consumers') or []
     consumers = [c for c in consumers if isinstance(c, list)][:4]
     changes = []
     for ch in (case.get('changes') or [])[:3]:
         try:
-            changes.append((max(0.0, float(ch[0])), _clamp_limit(ch[1])))
+            carrier = int(ch[2]) % len(CARRIERS) if len(ch) > 2 else 0
+            changes.append((max(0.0, float(ch[0])), _clamp_limit(ch[1]), carrier))
         except Exception:
             continue
     changes.sort(key=lambda c: c[0])
     start_delay = max(0.0, float(case.get('start_delay', 0.0) or 0.0))
 
+    # the take_tokens loop of each consumer as a flat list of "sleep before the request" values
+    plans = []
+    for plan in consumers:
+        steps = []
+        for item in plan[:6]:
+            try:
+                gap = GAPS[int(item[0]) % len(GAPS)]
+                rep = max(1, min(40, int(item[1])))
+            except Exception:
+                continue
+            for r in range(rep):
+                steps.append(gap if (gap and (r == 0 or gap < 1.0)) else 0.0)
+        plans.append(steps)
+
+    # consumers that are cancelled (a transfer that is aborted / removed / whose connection is closed):
+    # {consumer: (take_no, seconds, resume_after_seconds | None)}; take_no >= 1: the first request, from its
+    # take_no-th request on, that is still pending after `seconds` is cancelled; take_no == 0: the consumer is
+    # cancelled `seconds` after the start of the case whatever it is doing
+    cancel_spec = {}
+    for cn in (case.get('cancels') or [])[:3]:
+        try:
+            if not consumers:
+                break
+            ci = int(cn[0]) % len(consumers)
+            take_no = max(0, min(240, int(cn[1])))
+            secs = max(0.0, min(5000.0, float(cn[2]))) / 1000.0
+            resume = float(cn[3]) if len(cn) > 3 else -1.0
+            resume = None if resume < 0 else min(5000.0, resume) / 1000.0
+        except Exception:
+            continue
+        cancel_spec.setdefault(ci, (take_no, secs, resume))
+
     grants = []      # (time, tokens, consumer)
     waits = []       # (consumer, start, end, limit_at_start, waiters_at_start)
     timeline = []    # (time, limit)  piecewise constant limit
+    carriers_used = []
+    cancelled = []   # (time, consumer, was waiting for tokens, other consumers waiting, resumed)
     flags = {'change_while_waiting': False, 'idle_burst': False, 'suspended_unlimited': False,
              'waiters_at_changes': 0}
     waiting = set()
 
     async def main(loop):
+        from aioslsk.settings import NetworkLimitSettings
         settings = Settings(credentials=CredentialsSettings(username='me', password='pw'))
-        if upload:
-            settings.network.limits.upload_speed_kbps = limit0
-        else:
-            settings.network.limits.download_speed_kbps = limit0
+        mine, other = ('upload_speed_kbps', 'download_speed_kbps') if upload else \
+            ('download_speed_kbps', 'upload_speed_kbps')
+        setattr(settings.network.limits, mine, limit0)
+        setattr(settings.network.limits, other, other0)
         network = Network(settings, EventBus())
         conns = []
         for i in range(len(consumers)):
@@ -111,62 +192,112 @@ def run_case(case) -> CaseResult:
         timeline.append((t_start, limit0))
         current = {'limit': limit0}
         total = {'n': 0}
+        states = [{'i': 0, 'task': None, 'fired': False, 'started': False} for _ in consumers]
 
-        async def consumer(idx, conn, plan):
-            if start_delay:
+        def fire_cancel(idx):
+            st_ = states[idx]
+            if st_['fired'] or st_['task'] is None or st_['task'].done():
+                return
+            st_['fired'] = True
+            st_['rec'] = [round(loop.time(), 6), idx, idx in waiting, len(waiting - {idx}), False]
+            cancelled.append(st_['rec'])
+            st_['task'].cancel()
+
+        async def run_steps(idx, conn):
+            st_ = states[idx]
+            spec = cancel_spec.get(idx)
+            if start_delay and not st_['started']:
                 await asyncio.sleep(start_delay)
-            for item in plan[:6]:
+            st_['started'] = True
+            steps = plans[idx]
+            while st_['i'] < len(steps):
+                if total['n'] >= MAX_GRANTS:
+                    return
+                k = st_['i']
+                st_['i'] = k + 1
+                if steps[k]:
+                    await asyncio.sleep(steps[k])
+                limiter = conn.upload_rate_limiter if upload else conn.download_rate_limiter
+                t0 = loop.time()
+                it0 = loop.iterations
+                waiting.add(idx)
+                lim_at = current['limit']
+                nwait = len(waiting)
+                handle = None
+                if spec is not None and spec[0] >= 1 and k + 1 >= spec[0] and not st_['fired']:
+                    handle = loop.call_later(spec[1], fire_cancel, idx)
                 try:
-                    gap = GAPS[int(item[0]) % len(GAPS)]
-                    rep = max(1, min(40, int(item[1])))
-                except Exception:
-                    continue
-                if gap >= 1.0 and rep >= 8:
-                    pass
-                for r in range(rep):
-                    if total['n'] >= MAX_GRANTS:
-                        return
-                    if gap and r == 0:
-                        await asyncio.sleep(gap)
-                    elif gap and gap < 1.0:
-                        await asyncio.sleep(gap)
-                    limiter = conn.upload_rate_limiter if upload else conn.download_rate_limiter
-                    t0 = loop.time()
-                    it0 = loop.iterations
-                    waiting.add(idx)
-                    lim_at = current['limit']
-                    nwait = len(waiting)
-                    try:
-                        tokens = await asyncio.wait_for(limiter.take_tokens(), 120.0 if lim_at else 1.0)
-                    except asyncio.TimeoutError:
-                        flags.setdefault('stuck', []).append((idx, t0, lim_at))
-                        waiting.discard(idx)
-                        return
+                    tokens = await asyncio.wait_for(limiter.take_tokens(), 120.0 if lim_at else 1.0)
+                except asyncio.TimeoutError:
+                    flags.setdefault('stuck', []).append((idx, t0, lim_at))
+                    return
+                finally:
                     waiting.discard(idx)
-                    t1 = loop.time()
-                    total['n'] += 1
-                    grants.append((t1, tokens, idx))
-                    waits.append((idx, t0, t1, lim_at, nwait))
-                    if lim_at == 0 and current['limit'] == 0 and (t1 != t0 or loop.iterations != it0):
-                        flags['suspended_unlimited'] = True
+                    if handle is not None:
+                        handle.cancel()
+                t1 = loop.time()
+                total['n'] += 1
+                grants.append((t1, tokens, idx))
+                waits.append((idx, t0, t1, lim_at, nwait))
+                if lim_at == 0 and current['limit'] == 0 and (t1 != t0 or loop.iterations != it0):
+                    flags['suspended_unlimited'] = True
+
+        async def consumer(idx, conn):
+            st_ = states[idx]
+            spec = cancel_spec.get(idx)
+            if spec is not None and spec[0] == 0:
+                loop.call_at(t_start + spec[1], fire_cancel, idx)
+            while True:
+                task = st_['task']
+                await asyncio.wait([task])
+                if not task.cancelled():
+                    if task.exception() is not None:
+                        raise task.exception()
+                    return
+                # cancelled by the case: the request in flight is abandoned; optionally the consumer goes on with
+                # the rest of its plan later (a new transfer over the same limiter)
+                if spec is None or spec[2] is None:
+                    return
+                st_['rec'][4] = True
+                if spec[2]:
+                    await asyncio.sleep(spec[2])
+                st_['task'] = asyncio.ensure_future(run_steps(idx, conn))
+
+        def apply_limit(lim, carrier):
+            name = CARRIERS[carrier]
+            if name == 'set':
+                if upload:
+                    network.set_upload_speed_limit(lim)
+                else:
+                    network.set_download_speed_limit(lim)
+                return
+            if name == 'inplace+load':
+                setattr(settings.network.limits, mine, lim)
+            elif name == 'replace-limits+load':
+                settings.network.limits = NetworkLimitSettings(**{mine: lim, other: other0})
+            else:
+                settings.network = settings.network.model_copy(
+                    update={'limits': NetworkLimitSettings(**{mine: lim, other: other0})})
+            network.load_speed_limits()
 
         async def changer():
-            for at, lim in changes:
+            for at, lim, carrier in changes:
                 delay = t_start + at - loop.time()
                 if delay > 0:
                     await asyncio.sleep(delay)
                 if waiting:
                     flags['change_while_waiting'] = True
                     flags['waiters_at_changes'] += len(waiting)
-                if upload:
-                    network.set_upload_speed_limit(lim)
-                else:
-                    network.set_download_speed_limit(lim)
+                apply_limit(lim, carrier)
+                carriers_used.append(CARRIERS[carrier])
                 current['limit'] = lim
                 timeline.append((loop.time(), lim))
 
-        tasks = [asyncio.ensure_future(consumer(i, c, p)) for i, (c, p) in enumerate(zip(conns, consumers))]
+        # order of the first loop iteration: the consumers run in index order, then the first limit change
+        for i, c in enumerate(conns):
+            states[i]['task'] = asyncio.ensure_future(run_steps(i, c))
         ch = asyncio.ensure_future(changer())
+        tasks = [asyncio.ensure_future(consumer(i, c)) for i, c in enumerate(conns)]
         done, pending = await asyncio.wait(tasks, timeout=20000.0) if tasks else (set(), set())
         ch.cancel()
         for t in done:
@@ -184,9 +315,19 @@ def run_case(case) -> CaseResult:
                     f'(limit {case.get("limit")} KiB/s, grants so far {len(grants)})')
         return res
     if stuck or flags.get('stuck'):
-        res.violate('C20/take-tokens-never-returned',
-                    f"consumers {flags.get('stuck')} did not get tokens within 120 s of virtual time "
-                    f"(at most {MAX_GRANTS} grants of 128 bytes are requested per case)")
+        first = min([s_[1] for s_ in flags.get('stuck', [])] or [0.0])
+        limited = [s_ for s_ in flags.get('stuck', []) if s_[2]] or bool(stuck)
+        kind = 'C20/take-tokens-never-returned'
+        if limited and any(c[2] for c in cancelled):
+            # another consumer was cancelled while it waited for tokens (the request itself is never cancelled by
+            # the case): a different cause than a request that starves on its own
+            kind += ':after-cancelled-waiter'
+        res.violate(kind,
+                    f"consumers (consumer, start of the request, limit then) {flags.get('stuck')} did not get tokens "
+                    f"within 120 s of virtual time (1 s when the limit was 0; at most {MAX_GRANTS} grants of 128 bytes "
+                    f"are requested per case); first stuck request started at {first:.6f}; cancelled consumers (time, "
+                    f"consumer, was waiting, others waiting, resumed) = {cancelled}; timeline={timeline} changes made "
+                    f"by {carriers_used}")
 
     # ---- oracle -------------------------------------------------------
     grants.sort(key=lambda g: g[0])
@@ -260,9 +401,10 @@ def run_case(case) -> CaseResult:
         else:
             kind = 'C20/window-excess:limit-change:gt128'
         res.violate(kind, f'excess={ex:.1f} bytes in window [{grants[a][0]:.6f},{grants[b][0]:.6f}] '
-                          f'granted={prefix[b + 1] - prefix[a]} timeline={timeline}')
+                          f'granted={prefix[b + 1] - prefix[a]} timeline={timeline} changes made by {carriers_used}')
     if flags['suspended_unlimited']:
-        res.violate('C20/unlimited-suspended', 'take_tokens suspended although the limit is 0')
+        res.violate('C20/unlimited-suspended', f'take_tokens suspended although the limit is 0; timeline={timeline} '
+                                               f'changes made by {carriers_used}')
     k = max(1, len(consumers))
     for idx, t0, t1, lim, nwait in waits:
         if lim == 0 or t1 - t0 <= 0.05:
@@ -274,7 +416,8 @@ def run_case(case) -> CaseResult:
         need = 0.4 * lim * 1024 * (t1 - t0) - 128 * (k + 1)
         if got < need:
             res.violate('C20/stall', f'waited {t1 - t0:.3f}s at {lim} KiB/s while only {got} bytes were granted '
-                                     f'to all {k} consumers (needed >= {need:.0f})')
+                                     f'to all {k} consumers (needed >= {need:.0f}); timeline={timeline} '
+                                     f'changes made by {carriers_used}; cancelled={cancelled}')
             break
     for g in grants:
         if g[1] <= 0:
@@ -282,15 +425,26 @@ def run_case(case) -> CaseResult:
             break
 
     # labels
-    idle_burst = any(GAPS[int(i[0]) % len(GAPS)] >= 1.0 for c in consumers for i in c if isinstance(i, list)) and \
-        any(GAPS[int(i[0]) % len(GAPS)] == 0.0 and int(i[1]) >= 8 for c in consumers for i in c if isinstance(i, list))
-    res.nontrivial = bool(idle_burst or (changes and (flags['change_while_waiting'] or n > 0)))
+    items = [i for c in consumers for i in c[:6] if isinstance(i, list) and len(i) >= 2
+             and all(isinstance(v, int) for v in i[:2])]
+    idle_burst = any(GAPS[i[0] % len(GAPS)] >= 1.0 for i in items) and \
+        any(GAPS[i[0] % len(GAPS)] == 0.0 and i[1] >= 8 for i in items)
+    res.nontrivial = bool(idle_burst or (changes and (flags['change_while_waiting'] or n > 0))
+                          or any(c[2] for c in cancelled))
     if idle_burst:
         res.label('idle-then-burst')
     if flags['change_while_waiting']:
         res.label('change-while-waiting')
     if changes:
         res.label('limit-changes')
+    for name in sorted(set(carriers_used)):
+        res.label('carrier:' + name)
+    for c in cancelled:
+        res.label('cancel:while-waiting-for-tokens' if c[2] else 'cancel:elsewhere')
+        if c[2] and c[3]:
+            res.label('cancel:waiter-while-others-wait')
+        if c[4]:
+            res.label('cancel:resumed')
     if any(l == 0 for _, l in timeline):
         res.label('has-unlimited-period')
     res.label(f'consumers={len(consumers)}')
@@ -300,18 +454,23 @@ def run_case(case) -> CaseResult:
 
 
 def run_shard(ctx):
+    from checks import c20_file
+    # the deterministic file-tier cases first: a loaded machine that runs into the soft budget skips from the end
+    ctx.enumerate(c20_file.enumerated())
     n = 900 if ctx.tier == 'quick' else 30000
     ctx.explore(case_strategy(), n)
-    from checks import c20_file
     c20_file.shard_file(ctx)
 
 
 MANIFEST_ENTRY = {
-    'technique': 'property-based testing (Hypothesis): generated consumer/gap/limit-change schedules on a virtual '
-                 'clock, arithmetic window-bound oracle over all pairs of grant instants',
+    'technique': 'property-based testing (Hypothesis): generated consumer/gap/limit-change/cancellation schedules on '
+                 'a virtual clock, arithmetic window-bound oracle over all pairs of grant instants',
     'level_text': 'Generated-schedule exploration of the real rate limiter objects behind a real Network: every window '
                   'between two grant instants is compared with the integral of the limit plus one second of burst, '
-                  'and every wait is bounded in virtual time. Sampled schedules, no proof.',
+                  'and every wait is bounded in virtual time. Limit changes are made through each documented way '
+                  '(set_*_speed_limit, settings changed in place or by assigning a new limits / network section + '
+                  'load_speed_limits); consumers and whole send_file/receive_file tasks are cancelled while they and '
+                  'others wait for tokens. Sampled schedules, no proof.',
     'level_note': 'Trusted base: virtual-time loop (asyncio.sleep and time.monotonic share one clock), Hypothesis. '
                   'Tokens granted are used as the upper bound of bytes moved.',
 }
